@@ -666,13 +666,29 @@ class SymReal(SymNum):
 class SymInt(SymNum):
     __slots__ = ()
 
-    def _idiv(self, a, b):
+    @staticmethod
+    def _divmod(a, b):
+        """(q, r) z3 ints with Python floor semantics: a == b*q + r, r has the sign of b"""
         c = ctx()
         if not c.decide(b != 0):
             raise ZeroDivisionError("integer division or modulo by zero")
-        # floor division; z3 div is Euclidean (floor for positive divisors)
-        q = z3.If(b > 0, a / b, (-a) / (-b))
-        return q
+        a, b = z3.simplify(a), z3.simplify(b)
+        if z3.is_int_value(b) and b.as_long() > 0:
+            return a / b, a % b  # linear: Euclidean == floor for positive constant divisors
+        memo = c.memo.setdefault("divmod", {})
+        key = (a.get_id(), b.get_id())
+        if key in memo:
+            return memo[key][:2]
+        q, r = c.fresh("int", "quot"), c.fresh("int", "rem")
+        ax = [a == b * q + r, z3.Implies(b > 0, z3.And(0 <= r, r < b)), z3.Implies(b < 0, z3.And(b < r, r <= 0))]
+        # periodicity lemmas w.r.t. earlier divisions by the same divisor (valid; they spare z3 nonlinear reasoning)
+        for (a1, b1), (q1, r1, a1t, _) in list(memo.items()):
+            if b1 == b.get_id():
+                for k in (-2, -1, 0, 1, 2):
+                    ax.append(z3.Implies(a == a1t + k * b, z3.And(r == r1, q == q1 + k)))
+        c.add_lazy([q, r], ax)
+        memo[key] = (q, r, a, b)
+        return q, r
 
     def __floordiv__(self, o):
         b = lift(o)
@@ -680,7 +696,7 @@ class SymInt(SymNum):
             return NotImplemented
         if z3.is_real(b):
             return SymReal(z3.ToReal(self.e)).__floordiv__(o)
-        return SymInt(z3.simplify(self._idiv(self.e, b)))
+        return SymInt(z3.simplify(self._divmod(self.e, b)[0]))
 
     def __rfloordiv__(self, o):
         a = lift(o)
@@ -688,7 +704,7 @@ class SymInt(SymNum):
             return NotImplemented
         if z3.is_real(a):
             return SymReal(a).__floordiv__(self)
-        return SymInt(z3.simplify(self._idiv(a, self.e)))
+        return SymInt(z3.simplify(self._divmod(a, self.e)[0]))
 
     def __mod__(self, o):
         b = lift(o)
@@ -696,8 +712,7 @@ class SymInt(SymNum):
             return NotImplemented
         if z3.is_real(b):
             return SymReal(z3.ToReal(self.e)).__mod__(o)
-        q = self._idiv(self.e, b)
-        return SymInt(z3.simplify(self.e - b * q))
+        return SymInt(z3.simplify(self._divmod(self.e, b)[1]))
 
     def __rmod__(self, o):
         a = lift(o)
@@ -705,8 +720,10 @@ class SymInt(SymNum):
             return NotImplemented
         if z3.is_real(a):
             return SymReal(a).__mod__(self)
-        q = self._idiv(a, self.e)
-        return SymInt(z3.simplify(a - self.e * q))
+        return SymInt(z3.simplify(self._divmod(a, self.e)[1]))
+
+    def __divmod__(self, o):
+        return self // o, self % o
 
     def __index__(self):
         """enumerate the feasible values by forking (bounded by the harness assumptions)"""
